@@ -1627,11 +1627,14 @@ pub mod concurrent {
 
     /// (threads, timers per thread, preemption bound)
     pub fn explore(configs: &[(usize, usize, usize)], found: &mut Vec<Found>) -> Vec<(usize, usize, ControlledResult)> {
-        let mut out = vec![];
-        for &(threads, per_thread, bound) in configs {
+        // one worker per configuration (each execution runs its own 2-3 controlled threads)
+        let results = mc_kit::par_map(configs, |_, &(threads, per_thread, bound)| {
             let name: &'static str = Box::leak(format!("T{threads}x{per_thread} threads create timers concurrently (command API)").into_boxed_str());
             let make = move || (0..threads).map(|t| body(per_thread, t)).collect::<Vec<_>>();
-            let res = explore_controlled(name, &make, bound, true, &show, &|ex| judge(&ex.results, threads, per_thread));
+            explore_controlled(name, &make, bound, true, &show, &|ex| judge(&ex.results, threads, per_thread))
+        });
+        let mut out = vec![];
+        for (&(threads, per_thread, _), res) in configs.iter().zip(results) {
             for (key, what, choices) in &res.violations {
                 found.push(Found { key: key.clone(), what: what.clone(), threads, per_thread, choices: choices.clone() });
             }
